@@ -28,6 +28,9 @@ var (
 
 	// ErrCapacity is returned when capacity is error.
 	ErrCapacity = errors.New("capacity error")
+
+	// ErrRWMode is returned when the RWMode option is neither FileIO nor MMap.
+	ErrRWMode = errors.New("err RWMode option set")
 )
 
 const (
@@ -67,6 +70,11 @@ func NewDataFile(path string, capacity int64, rwMode RWMode) (df *DataFile, err 
 		if err != nil {
 			return nil, err
 		}
+	}
+
+	if rwManager == nil {
+		// neither FileIO nor MMap: a DataFile without a manager panics on first use
+		return nil, ErrRWMode
 	}
 
 	return &DataFile{
